@@ -142,10 +142,9 @@ where
         self.container.pop().expect("must be non-empty");
 
         // We did some work if we get here; check if we reached
-        // an empty state.
-        if self.is_empty() {
-            self.clear();
-        }
+        // an empty state, or if the consumed prefix now takes up
+        // more than half of the (shorter) container.
+        self.maybe_slide();
 
         self.check_rep();
         Some(ret)
